@@ -11,7 +11,7 @@ open Nix Nix.Proto Nix.Drive Nix.Dump
 
 def sessionOps : List String := ["fopen", "fclose", "freopen", "fflush", "fdrop", "fisopen", "fbytes"]
 def readOnlyOps : List String := ["getlinkh", "get", "has", "count", "list", "valid", "drop", "idof", "haslink", "getlink", "countlink", "listlink",
-  "xcheck", "xlinks", "xfeat", "hdump", "getf", "find", "dump", "dumpx", "validate"]
+  "xcheck", "xlinks", "xfeat", "hdump", "haslinkh", "getf", "find", "dump", "dumpx", "validate"]
 
 def implOk (impl : List String) : Bool := impl.head? == some "ok"
 
@@ -223,6 +223,15 @@ def handleImpl (ds : DState) (op : String) (args impl : List String) : Option (D
       -- features are addressed by id only; they have no name
       fin st (judge s!"xcheck.{kind}" impl impl (relXcheck st key impl (kind != "R")))
     | _ => fin st (.malformed "xcheck")
+  -- C03: the has-query by HANDLE agrees with the links: true for the entity that is linked, false for another entity — also one
+  -- that merely has the same name (an array of another block named like a referenced one)
+  | "haslinkh" =>
+    (match args with
+    | [rel, _, _, _, remark] =>
+      fin st (judge s!"haslinkh.{rel}.{remark}" impl impl
+        [(if remark == "foreign" then "has_by_handle_is_false_for_an_entity_that_is_not_linked" else "has_by_handle_is_true_for_the_linked_entity",
+          impl == ["ok", if remark == "foreign" then "0" else "1"])])
+    | _ => fin st (.malformed "haslinkh"))
   | "xfeat" => fin st (judge "xfeat" impl impl (relXfeat impl))
   | "hdump" =>
     match Dump.parse impl, st.lastDump with
